@@ -61,8 +61,10 @@ pub fn judge_case(c: &Case) -> Obs {
     if let Some(l) = proggen::fit_label(&spec) {
         obs.label(l);
     }
-    let cmds: Vec<Cmd> = c.cmds.iter().map(|r| make_mutating_cmd(&p, r)).collect();
-    let more: Vec<Cmd> = c.more.iter().map(|r| make_mutating_cmd(&p, r)).collect();
+    // histories may contain inspection commands too (they change nothing, but run code of their own)
+    let make = |r: &RawCmd| if r.kind & 0xC0 == 0xC0 { make_inspect_cmd(&p, r) } else { make_mutating_cmd(&p, r) };
+    let cmds: Vec<Cmd> = c.cmds.iter().map(make).collect();
+    let more: Vec<Cmd> = c.more.iter().map(make).collect();
     let text = |v: &[Cmd]| v.iter().enumerate().map(|(i, c)| c.text(i as u8)).collect::<Vec<_>>().join("\n");
     let prefix = text(&cmds);
     let nl = |s: &str| if s.is_empty() { String::new() } else { format!("{s}\n") };
@@ -77,6 +79,14 @@ pub fn judge_case(c: &Case) -> Obs {
     let shown = show_case(&p, &script_b, &[]);
     obs.show = Some(shown.clone());
     obs.key = hash_of(&(&p.text, &script_b));
+    // the oracle reads the machine through hook H1, not through the transcript: half of the cases
+    // run in the normal (non-minimal) output mode
+    let minimal = obs.key % 2 == 0;
+    obs.label(if minimal { "output-mode-minimal" } else { "output-mode-normal" });
+    if cmds.iter().chain(&more).any(|c| matches!(c, Cmd::Print(_) | Cmd::Registers | Cmd::Assembly(_) | Cmd::BreakList | Cmd::Help | Cmd::Echo(_))) {
+        obs.label("history-with-inspection-commands");
+    }
+    let run_lace = |p: &Prog, script: &str, input: &[u8], fuel: u64| if minimal { run_lace(p, script, input, fuel) } else { run_lace_mode(p, script, input, fuel, false) };
     obs.label(["variant-reset", "variant-reset-twice", "variant-reset-history-reset", "variant-reset-then-run"][c.variant as usize % 4]);
 
     // Session A: the history alone - what did it change?
@@ -124,7 +134,7 @@ pub fn judge_case(c: &Case) -> Obs {
         // history; reset; quit  ==  (output of the history) ++ fresh plain run
         let plain = lacebox::run_session(
             Load::Source { text: p.text.clone(), debugger: None },
-            RunSpec { stack: p.built.stack, minimal: true, fuel: FUEL, input: vec![] },
+            RunSpec { stack: p.built.stack, minimal, fuel: FUEL, input: vec![] },
         );
         let Some(op) = outcome_of(&mut obs, "C12", &plain, &shown) else { return obs };
         if op.stop == Stop::OutOfFuel || ob.stop == Stop::OutOfFuel {
@@ -159,7 +169,7 @@ impl Prop for C12 {
         "C12"
     }
     fn rule(&self) -> &'static str {
-        "ProgGen programs (incl. self-modifying stores, stores below the origin, into the stack area and to 0xFFFF through pointers) x histories of 1-11 commands over {move to any register / any memory location, goto, eval of arbitrary instructions incl. stores and jumps, step, step into k, continue, break add/remove, reset} followed by: reset | reset; reset | reset; <history>; reset | reset; quit. \
+        "ProgGen programs (incl. self-modifying stores, stores below the origin, into the stack area and to 0xFFFF through pointers) x histories of 1-11 commands over {move to any register / any memory location, goto, eval of arbitrary instructions incl. stores and jumps, step, step into k, continue, break add/remove, reset, and (a quarter) the inspection commands print / registers / assembly / break list / help / echo}, half of them in the normal (non-minimal) output mode, followed by: reset | reset; reset | reset; <history>; reset | reset; quit. \
          Oracle: after the final reset the full snapshot (8 registers, PC, CC, 65,536 words) equals the snapshot taken right after loading; for `reset; quit` the exit status and final state equal a fresh plain run and the output equals (output of the history) ++ (output of a fresh run). \
          Non-trivial (measured on a twin session that ends before the reset): the history changed >= 1 memory word outside the stack page, >= 1 register and the PC. Distinct = hash(source, script)."
     }
